@@ -3,7 +3,7 @@
 # (seeded/*, selftest/mutants/*) and each must-pass change (selftest/benign/*)
 # to a scratch worktree of /repo and runs the checks against it with
 # BXV_REPO. Nothing is written into /repo or /verif/evidence.
-# usage: selftest.sh [benign|seeded|mutants|all] [properties...]
+# usage: [SELFTEST_ONLY=<regex on names>] selftest.sh [benign|seeded|mutants|all] [properties...]
 export GOFLAGS=-mod=mod GOPROXY=off GOSUMDB=off GOTOOLCHAIN=local
 mode=${1:-all}; shift
 props="$@"
@@ -12,6 +12,7 @@ out=$(mktemp -d /tmp/bxv-selftest-XXXX)
 fail=0
 run_one() { # name patch expect props
   name=$1; patch=$2; expect=$3; ps=$4
+  if [ -n "${SELFTEST_ONLY:-}" ] && ! [[ $name =~ $SELFTEST_ONLY ]]; then return; fi
   wt=$out/wt-$name
   git -C /repo worktree add -q --detach $wt HEAD || return
   if ! git -C $wt apply $patch; then echo "SKIP $name: patch does not apply"; git -C /repo worktree remove --force $wt; return; fi
